@@ -41,9 +41,11 @@ def extract(out, tag):
 def make_inputs(ck, rnd, n):
     inputs = []
     for t in range(n):
-        c = gen.gen_circuit(rnd, max_gates=ck.pick(8, 12), max_ff=2)
+        # (parity logic with the smallest capacity: waveforms fill up and overflow - an operation must stay inside its own memory)
+        parity = rnd.random() < 0.25
+        c = gen.parity_circuit(rnd) if parity else gen.gen_circuit(rnd, max_gates=ck.pick(8, 12), max_ff=2)
         nl = len(c.lines)
-        caps = rnd.choice([4, 8, [rnd.choice([4, 8, 12]) for _ in range(nl + 3)]])
+        caps = 4 if parity else rnd.choice([4, 8, [rnd.choice([4, 8, 12]) for _ in range(nl + 3)]])
         sims = rnd.choice([1, 2, 3])
         d = gen.rand_delays(rnd, c, vals=(0, 1, 2, 3))
         stim = wsim.rand_wave_stim(rnd, len(c.s_nodes), sims)
